@@ -272,6 +272,20 @@ def s_split_first(I, w, frame, site, fn, args, term):
     return out
 
 
+def s_split_last(I, w, frame, site, fn, args, term):
+    s = args[0]
+    if s[0] != 'slice':
+        return None
+    out = []
+    w1 = w.fork()
+    if I.assume(w1, ('cmp', 'eq', s[3], Lin.c(0)), True):
+        out.append((w1, ('enum', ((0, ()),))))
+    w2 = w.fork()
+    if I.assume(w2, ('cmp', 'lt', Lin.c(0), s[3]), True):
+        out.append((w2, ('enum', ((1, (('agg', (('ref', s[1].ext(('i', s[2] + s[3] - 1))), ('slice', s[1], s[2], s[3] - 1))),)),))))
+    return out
+
+
 def _chunk_len(ty):
     """N of the first `&[T; N]` found in a (nested) type description"""
     if not isinstance(ty, dict):
@@ -1010,6 +1024,7 @@ TABLE = {
     'core::slice::split_at': s_split_at,
     'core::slice::split_at_mut': s_split_at,
     'core::slice::split_first': s_split_first,
+    'core::slice::split_last': s_split_last,
     'core::slice::first_chunk': s_first_chunk,
     'core::slice::split_first_chunk': s_split_first_chunk,
     'core::slice::iter': s_iter,
